@@ -144,6 +144,22 @@ func GenPoolPlan(rng *kernel.RNG, env *kernel.Env, k int) any {
 		if rng.Bool(0.1) {
 			p.Ops = append(p.Ops, PoolOp{Kind: "gasprice", Price: uint64(rng.Range(1, 4)) * gwei})
 		}
+		if rng.Bool(0.12) {
+			// a burst: three or four senders submit runs of different lengths in one batch, far
+			// beyond the slots - the pool has to cut several accounts back at once
+			op := PoolOp{Kind: "add"}
+			senders := rng.Range(3, 4)
+			for sd := 0; sd < senders && sd < acc; sd++ {
+				for j, n := 0, rng.Range(2, 9); j < n; j++ {
+					op.Txs = append(op.Txs, PoolTx{From: sd, To: rng.Intn(acc), Gas: 21000, Price: uint64(rng.Range(1, 6)) * gwei, Value: "1000", NonceOff: j})
+				}
+			}
+			p.Ops = append(p.Ops, op)
+			// then a resend at each sender's next nonce
+			for sd := 0; sd < senders && sd < acc; sd++ {
+				p.Ops = append(p.Ops, PoolOp{Kind: "add", Txs: []PoolTx{{From: sd, To: rng.Intn(acc), Gas: 21000, Price: 7 * gwei, Value: "1000", Next: true}}})
+			}
+		}
 		if rng.Bool(0.35) && len(d.Blocks) > 0 {
 			// a transaction exactly affordable at the head this delivery leads to, then its
 			// price-bumped replacement (which costs more than that head's balance allows)
@@ -505,6 +521,24 @@ func (r *poolRun) checkReinjection(before, after int) {
 // structural invariants hold even while the pool lags behind the chain head.
 func (r *poolRun) structural() {
 	pend, queue := r.pool.Content()
+	// what the pool lists is what it holds: every listed transaction is known to the lookup
+	// by hash, and the listed numbers are the counted numbers
+	listed := 0
+	for _, m := range []map[common.Address]types.Transactions{pend, queue} {
+		for a, txs := range m {
+			for _, tx := range txs {
+				listed++
+				if r.pool.Get(tx.Hash()) == nil {
+					r.add("listed-transaction-unknown-to-the-pool", "sender %x nonce %d: Content lists transaction %x (price %v) which the pool does not hold any more (Get returns nothing)", a[:4], tx.Nonce(), tx.Hash().Bytes()[:4], tx.GasPrice())
+					return
+				}
+			}
+		}
+	}
+	if np, nq := r.pool.Stats(); np+nq != listed {
+		r.add("listed-transactions-differ-from-stats", "Content lists %d transactions, Stats counts %d pending + %d queued", listed, np, nq)
+		return
+	}
 	for a, txs := range pend {
 		seen := map[uint64]bool{}
 		for _, tx := range txs {
